@@ -155,7 +155,8 @@ def coq_eval(name, imports, body, timeout=600):
                  "Import ListNotations.\nOpen Scope string_scope.\nOpen Scope list_scope.\nOpen Scope Z_scope.\n%s\n"
                  % (" ".join(imports), body))
     rc, out, dt = sh("ulimit -s unlimited 2>/dev/null; coqc -Q . UV Cases/%s.v" % name, cwd=COQ, timeout=timeout)
-    for ext in (".vo", ".glob", ".vok", ".vos"):
+    # compiled outputs always go; the case file itself is kept only when it did not compile (for the replay / debugging)
+    for ext in (".vo", ".glob", ".vok", ".vos") + ((".v",) if rc == 0 else ()):
         try:
             (d / (name + ext)).unlink()
         except OSError:
